@@ -31,6 +31,7 @@ type Layout struct {
 	Blank    bool   `json:"blank"`          // blank lines between (and before) entries
 	Surround bool   `json:"surround"`       // spaces around header/uri lines
 	JSON     string `json:"json,omitempty"` // lines | pretty | array | arraypretty
+	Tail     string `json:"tail,omitempty"` // raw, no final newline: white space after the last entry's bytes (no newline after it)
 }
 
 // Want is what the provider must deliver for one entry.
@@ -196,6 +197,8 @@ func render(format string, items []Item, l Layout) []byte {
 			b.Write(r.Bytes())
 			if !last || l.FinalNL {
 				b.WriteString("\n")
+			} else {
+				b.WriteString(l.Tail)
 			}
 		}
 	case "jsonline":
@@ -424,7 +427,7 @@ type File struct {
 }
 
 func (f File) Name() string {
-	return fmt.Sprintf("%s|items=%d|entries=%d|nl=%v|blank=%v|surround=%v|%s", f.Format, len(f.Items), entries(f.Items), f.Layout.FinalNL, f.Layout.Blank, f.Layout.Surround, f.Layout.JSON)
+	return fmt.Sprintf("%s|items=%d|entries=%d|nl=%v|blank=%v|surround=%v|%s", f.Format, len(f.Items), entries(f.Items), f.Layout.FinalNL, f.Layout.Blank, f.Layout.Surround, f.Layout.JSON) + map[bool]string{true: fmt.Sprintf("|tail=%q", f.Layout.Tail)}[f.Layout.Tail != ""]
 }
 
 // enumFiles calls fn for every file: all item lists of length <= 2 over the
@@ -467,6 +470,19 @@ func enumFiles(format string, thorough bool, fn func(f File)) (count int) {
 		for _, b := range red {
 			for _, c := range red {
 				emit([]Item{a, b, c})
+			}
+		}
+	}
+	if format == "raw" {
+		// the file ends in white space that no newline follows (a trailing blank, a lone CR)
+		ls = nil
+		for _, tail := range []string{" ", "\r", "\t ", " \r"} {
+			ls = append(ls, Layout{Tail: tail}, Layout{Tail: tail, Blank: true})
+		}
+		for _, a := range red {
+			emit([]Item{a})
+			for _, b := range red {
+				emit([]Item{a, b})
 			}
 		}
 	}
